@@ -118,6 +118,122 @@ end
 
 end
 
+/-! ## The cycle guard (`tags`)
+
+`_object_to_doc` carries a set of object identities (`tags`). `_get_member_pairs` puts `id(inst)` into the set it hands
+to the members of `inst`; a member (hier.py: `if id(subinst) in tags: continue`) or an array item (`if id(subinst) in
+tags: return None` for the whole array) that is found in the set is not written. The set is meant to hold the *ancestors*
+of a node, so that only genuine cycles are pruned; whether it does (a copy per object: `tags | {id(inst)}`) or whether it
+holds everything written so far (one shared set: `tags.add(id(inst))`) is the measured switch `Facts02.guardPathLocal`.
+
+Native values are trees; the identities of the Python objects at their nodes are given separately (`Ids`), so that the
+same value can be presented with and without aliasing. -/
+
+/-- identities along a value tree: `id` of the object at the node (`none` where the guard never finds anything: leaves,
+    lists, `None`), children in the order of the value's members / items -/
+inductive Ids where
+  | node (id : Option Nat) (kids : List Ids)
+  deriving Repr, Inhabited
+
+def Ids.id? : Ids → Option Nat | .node i _ => i
+def Ids.kids : Ids → List Ids | .node _ k => k
+/-- a node nothing is known about: no identity that could be found in `tags` -/
+def Ids.anon : Ids := .node none []
+def kidHead : List Ids → Ids | [] => .anon | i :: _ => i
+def kidTail : List Ids → List Ids | [] => [] | _ :: r => r
+
+/-- `id(x) in tags` -/
+def seen (tags : List Nat) : Option Nat → Bool
+  | some i => tags.contains i
+  | none => false
+
+def addId (tags : List Nat) : Option Nat → List Nat
+  | some i => i :: tags
+  | none => tags
+
+def isNoneV : Val → Bool | .none => true | _ => false
+
+section
+variable (glob : Bool) (S : Spell) (R : Registry)
+
+mutual
+  /-- `_object_to_doc(t, v, tags)`; the second component is `tags` as the caller sees it afterwards -/
+  def encodeG (t : Ty) : Val → Ids → List Nat → Doc × List Nat
+    | .none, _, tags => (.null, tags)
+    | .list vs, ids, tags =>
+      (match t with
+       | .arr _ elem _ =>
+         let r := encodeItemsG elem vs ids.kids tags
+         (match r.1 with | some ds => (.list ds, r.2) | none => (.null, r.2))
+       | t =>
+         if t.occ.repeated then
+           let r := encodeItemsG t vs ids.kids tags
+           (match r.1 with | some ds => (.list ds, r.2) | none => (.null, r.2))
+         else (.null, tags))
+    | .obj c fvs, ids, tags =>
+      (match t with
+       | .obj name _ _ fields _ =>
+         let cf := polyTarget S R name fields c
+         -- `_get_member_pairs`: `tags = tags | {id(inst)}` (a copy) or `tags.add(id(inst))` (the caller's set)
+         let r := encodeFieldsG cf.2 fvs ids.kids (addId tags ids.id?)
+         (wrapPairs S cf.1 r.1, if glob then r.2 else tags)
+       | _ => (.null, tags))
+    | v, _, tags => ((match t with | .prim p _ => S.lOut p v | _ => .null), tags)
+
+  /-- `_to_dict_value(t, v, tags)` for one item of a list -/
+  def encOneG (t : Ty) : Val → Ids → List Nat → Doc × List Nat
+    | .none, _, tags =>
+      ((match t with
+        | .obj name _ _ fields _ => wrapPairs S name (nonePairs S fields)
+        | _ => .null), tags)
+    | .list ws, ids, tags =>
+      (match t with
+       | .arr _ elem _ =>
+         let r := encodeItemsG elem ws ids.kids tags
+         (match r.1 with | some ds => (.list ds, r.2) | none => (.null, r.2))
+       | _ => (.null, tags))
+    | .obj c fvs, ids, tags =>
+      (match t with
+       | .obj name _ _ fields _ =>
+         let cf := polyTarget S R name fields c
+         let r := encodeFieldsG cf.2 fvs ids.kids (addId tags ids.id?)
+         (wrapPairs S cf.1 r.1, if glob then r.2 else tags)
+       | _ => (.null, tags))
+    | v, _, tags => ((match t with | .prim p _ => S.lOut p v | _ => .null), tags)
+
+  /-- the array loop of `_object_to_doc`: `none` = "throwing the whole array away" -/
+  def encodeItemsG (t : Ty) : List Val → List Ids → List Nat → Option (List Doc) × List Nat
+    | [], _, tags => (some [], tags)
+    | v :: vs, ks, tags =>
+      if seen tags (kidHead ks).id? then (none, tags)
+      else
+        let r := encOneG t v (kidHead ks) tags
+        let rs := encodeItemsG t vs (kidTail ks) r.2
+        (match rs.1 with | some ds => (some (r.1 :: ds), rs.2) | none => (none, rs.2))
+
+  /-- `_get_member_pairs` over the members in declaration order -/
+  def encodeFieldsG : Fields → List (Text × Val) → List Ids → List Nat → List (Text × Doc) × List Nat
+    | (n, t) :: fs, (_, v) :: fvs, ks, tags =>
+      if !isNoneV v && seen tags (kidHead ks).id? then encodeFieldsG fs fvs (kidTail ks) tags     -- `continue`
+      else
+        let r := encodeG t v (kidHead ks) tags
+        let rs := encodeFieldsG fs fvs (kidTail ks) r.2
+        ((if emits S t r.1 then [(n, r.1)] else []) ++ rs.1, rs.2)
+    | _, _, _, tags => ([], tags)
+end
+
+end
+
+mutual
+  /-- no object is (by identity) among its own ancestors `anc`: what a finite value tree read off an acyclic object
+      graph looks like -/
+  def acyclic (anc : List Nat) : Ids → Bool
+    | .node i ks => !seen anc i && acyclicAll (addId anc i) ks
+  def acyclicAll (anc : List Nat) : List Ids → Bool
+    | [] => true
+    | k :: r => acyclic anc k && acyclicAll anc r
+end
+
 section
 variable (F : Facts08) (cfg : Cfg) (R : Registry)
 
@@ -136,6 +252,22 @@ def encodeResponse (method : Text) (ret : Ty) (v : Val) : Doc :=
   match cfg.proto with
   | .msgpackRpc => .list [.int 1, .int 0, .null, wrapped]
   | _ => if cfg.ignoreWrappers then inner else wrapped
+
+/-- `_object_to_doc(t, v, set())` for a value whose nodes are the Python objects `ids`, with the cycle guard the code has -/
+def encodeIds (G : Facts02) (t : Ty) (v : Val) (ids : Ids) : Doc :=
+  (encodeG (!G.guardPathLocal) (ownSpell F cfg) R t v ids []).1
+
+/-- `serialize` for a response whose result `v` is made of the Python objects `ids` -/
+def encodeResponseIds (G : Facts02) (method : Text) (ret : Ty) (v : Val) (ids : Ids) : Doc :=
+  let S := ownSpell F cfg
+  let rname := method ++ "Response".toList
+  let fname := method ++ "Result".toList
+  let inner : Doc := encodeIds F cfg R G ret v ids
+  let wrapped : Doc := wrapPairs S rname (if emits S ret inner then [(fname, inner)] else [])
+  match cfg.proto with
+  | .msgpackRpc => .list [.int 1, .int 0, .null, wrapped]
+  | _ => if cfg.ignoreWrappers then inner else wrapped
+
 
 end
 
